@@ -20,6 +20,7 @@ import (
 	"strings"
 	"sync"
 	"time"
+	"unicode/utf8"
 
 	"github.com/samaritan-proxy/samaritan/host"
 	"github.com/samaritan-proxy/samaritan/pb/config/protocol"
@@ -106,6 +107,14 @@ func (p *redisProc) addHandler(scope *stats.Scope, cmd string, fn commandHandleF
 }
 
 func (p *redisProc) findHandler(cmd string) (*commandHandler, bool) {
+	// NOTE: command names are ASCII. strings.ToLower folds some other letters
+	// to ASCII ones as well (the Kelvin sign to "k"), a name spelled with them
+	// is not the name of a supported command and must not reach a backend.
+	for i := 0; i < len(cmd); i++ {
+		if cmd[i] >= utf8.RuneSelf {
+			return nil, false
+		}
+	}
 	hdlr, ok := p.cmdHdlrs[strings.ToLower(cmd)]
 	return hdlr, ok
 }
